@@ -182,6 +182,13 @@ impl Metainfo {
             },
         };
 
+        // Sum of all lengths is used in further calculations, so it must be representable
+        files
+            .iter()
+            .try_fold(0u64, |sum, file| sum.checked_add(file.length))
+            .and_then(|sum| usize::try_from(sum).ok())
+            .ok_or(Error::MetaInvalidU64("length"))?;
+
         let metainfo = Metainfo {
             announce: Self::find_announce(dict)?,
             name,
@@ -221,6 +228,8 @@ impl Metainfo {
     pub fn find_piece_length(dict: &HashMap<Vec<u8>, BValue>) -> Result<u64, Error> {
         match dict.get(&b"info".to_vec()) {
             Some(BValue::Dict(info)) => match info.get(&b"piece length".to_vec()) {
+                // Zero is not a valid piece length (and would be used as a divisor later)
+                Some(BValue::Int(0)) => Err(Error::MetaIncorrectOrMissing("piece length")),
                 Some(BValue::Int(length)) => {
                     u64::try_from(*length).or(Err(Error::MetaInvalidU64("piece length")))
                 }
